@@ -41,8 +41,9 @@ class _ParseSpec(Spec):
             mini = set(docs.load_pool("mini"))
             for i, s in enumerate(docs.g2_shards(pool, replace=True)):
                 # every position of the mini skeletons, every second position of the others
-                if s["base"] in mini or i % 2 == 0:
-                    out.append(self.job(s))
+                heavy = s["base"].count("\n") >= 2 and ("`\n" in s["base"] or "(\n" in s["base"] or "a\nb" in s["base"] or "```x \\" in s["base"])
+                if s["base"] in mini or (i % 2 == 0 and not heavy) or (heavy and i % 4 == 0):
+                    out.append(self.job(s, budget=100.0 if heavy else 150.0))
         else:
             for s in docs.g1_shards(3):
                 out.append(self.job(s))
@@ -50,6 +51,15 @@ class _ParseSpec(Spec):
                 out.append(self.job(s))
             for s in docs.g2_pairs(_PAIRS):
                 out.append(self.job(s, budget=600.0))
+        # G1-Sigma: all documents of length n over small Markdown-significant alphabets
+        if tier == "quick":
+            for name, n, split in (("emphasis", 5, 1), ("links", 4, 1), ("containers", 4, 1)):
+                for s in docs.sigma_shards(name, n, split):
+                    out.append(self.job(s, budget=200.0))
+        else:
+            for name, n, split in (("emphasis", 7, 2), ("links", 6, 2), ("containers", 6, 2), ("leaf", 5, 1)):
+                for s in docs.sigma_shards(name, n, split):
+                    out.append(self.job(s, budget=900.0))
         for extra in self.extra_docs(tier):
             out.append(self.job({"skeleton": extra, "holes": []}))
         return out
@@ -61,8 +71,10 @@ class _ParseSpec(Spec):
         if tier == "quick":
             return {"G1": "all documents of length 0..2 (every cell any Unicode scalar value but NUL/CR)",
                     "G2": "core skeleton pool (skeletons.txt), one symbolic cell replacing each position of the 9 mini skeletons and every second position of the other 14",
+                    "G1-Sigma": "all documents of length 5 over {*,_,a,space,`}, of length 4 over {[,],(,),a,!} and over {>,-,space,newline,a,1,.}",
                     "per_path_timeout_s": self.per_path_timeout}
         return {"G1": "all documents of length 0..3",
+                "G1-Sigma": "all documents of length 7 over {*,_,a,space,`}, length 6 over {[,],(,),a,!} and {>,-,space,newline,a,1,.}, length 5 over {#,=,`,~,newline,space,a,-}",
                 "G2": "full skeleton pool, one symbolic cell replacing each position and one inserted at each position; two adjacent symbolic cells at %d listed (skeleton, position) pairs" % len(_PAIRS),
                 "per_path_timeout_s": self.per_path_timeout}
 
